@@ -22,11 +22,38 @@ MAX_PATHS = 64
 
 
 class Path(object):
-    def __init__(self, conds, kind, value, env):
+    def __init__(self, conds, kind, value, env, effects=None):
         self.conds = conds      # list of (test ast, bool)
         self.kind = kind
         self.value = value
         self.env = env
+        self.effects = list(effects or [])   # expression statements (calls) executed on the path, substituted
+
+    def pool(self):
+        """Every resolved expression of the path (effects, returned value, final bindings) as normalised text."""
+        out = [norm(e) for e in self.effects]
+        if self.value is not None:
+            out.append(norm(self.value))
+        out.extend(norm(v) for v in self.env.values() if isinstance(v, ast.AST))
+        return out
+
+
+def inline_calls(e, helpers):
+    """Replace calls to simple helpers (module functions whose body is one `return <expr>`) by their body."""
+    if not helpers:
+        return e
+
+    class T(ast.NodeTransformer):
+        def visit_Call(self, n):
+            self.generic_visit(n)
+            f = helpers.get(n.func.id) if isinstance(n.func, ast.Name) else None
+            if f is None or n.keywords or len(n.args) != len(f.args.args):
+                return n
+            body = [st for st in f.body if not (isinstance(st, ast.Expr) and isinstance(st.value, ast.Constant))]
+            if len(body) != 1 or not isinstance(body[0], ast.Return) or body[0].value is None:
+                return n
+            return subst(body[0].value, dict((a.arg, v) for a, v in zip(f.args.args, n.args)))
+    return T().visit(e)
 
 
 class Opaque(ast.AST):
@@ -122,9 +149,13 @@ def _append_loop(st, env):
     return None
 
 
-def paths(stmts, env=None, decide=None, limit=MAX_PATHS):
-    """Symbolically execute `stmts`; returns a list of Path."""
+def paths(stmts, env=None, decide=None, limit=MAX_PATHS, helpers=None):
+    """Symbolically execute `stmts`; returns a list of Path. `helpers`: {name: FunctionDef} of single-return functions to inline."""
     out = []
+    _subst = globals()["subst"]
+
+    def subst(e, env_):     # substitution followed by helper inlining (shadows the module-level function inside paths)
+        return inline_calls(_subst(e, dict((k_, v_) for k_, v_ in env_.items() if k_ != "__effects__")), helpers)
 
     def kill_assigned(node, env):
         for n in ast.walk(node):
@@ -136,6 +167,28 @@ def paths(stmts, env=None, decide=None, limit=MAX_PATHS):
             if isinstance(n, ast.Call) and isinstance(n.func, ast.Attribute) and isinstance(n.func.value, ast.Name) and \
                     n.func.attr in ("append", "extend", "insert", "pop", "remove", "clear", "add", "update", "sort", "reverse"):
                 env[n.func.value.id] = _opaque(n.func.value.id, "mutated in place")
+
+    def loop_body(st, env):
+        """Resolve what a loop body computes in terms of the bindings at loop entry (names the loop assigns stay symbolic); the
+        resolved statements are recorded as effects of the enclosing path."""
+        assigned = set()
+        for n in ast.walk(st):
+            if isinstance(n, (ast.Assign, ast.AugAssign, ast.For)):
+                for t in assigned_targets(n):
+                    for x in ast.walk(t):
+                        if isinstance(x, ast.Name):
+                            assigned.add(x.id)
+        env_in = dict((k_, v_) for k_, v_ in env.items() if k_ not in assigned and k_ != "__effects__")
+        effs = [ast.Call(func=ast.Name(id="__loop__", ctx=ast.Load()), args=[clone(getattr(st, "target", ast.Constant(value=None))),
+                                                                             subst(getattr(st, "iter", getattr(st, "test", None)), env)], keywords=[])]
+        for p_ in paths(st.body, env=env_in, decide=decide, limit=16, helpers=helpers):
+            effs.extend(p_.effects)
+            for k_, v_ in p_.env.items():
+                if k_ in assigned and isinstance(v_, ast.AST):
+                    effs.append(ast.Call(func=ast.Name(id="__bind__", ctx=ast.Load()), args=[ast.Name(id=k_, ctx=ast.Load()), v_], keywords=[]))
+            if p_.value is not None and p_.kind == "return":
+                effs.append(ast.Call(func=ast.Name(id="__return__", ctx=ast.Load()), args=[p_.value], keywords=[]))
+        env["__effects__"] = env.get("__effects__", []) + effs
 
     def run(sts, env, conds):
         if len(out) >= limit:
@@ -186,14 +239,34 @@ def paths(stmts, env=None, decide=None, limit=MAX_PATHS):
                 return
             elif isinstance(st, ast.For):
                 al = _append_loop(st, env)
+                seq = subst(st.iter, env)
                 if al is not None:
                     env[al[0]] = al[1]
+                elif isinstance(seq, (ast.Tuple, ast.List)) and len(seq.elts) <= 8 and not st.orelse and \
+                        not any(isinstance(x, (ast.Break, ast.Continue, ast.Return)) for b_ in st.body for x in ast.walk(b_)):
+                    # a loop over a literal sequence: unrolled
+                    unrolled = []
+                    for el in seq.elts:
+                        unrolled.append(ast.Assign(targets=[clone(st.target)], value=el))
+                        unrolled.extend(st.body)
+                    run(unrolled + sts[i + 1:], env, conds)
+                    return
                 else:
+                    loop_body(st, env)
                     kill_assigned(st, env)
-            elif isinstance(st, (ast.While, ast.Try, ast.With)):
+            elif isinstance(st, ast.While):
+                loop_body(st, env)
+                kill_assigned(st, env)
+            elif isinstance(st, (ast.Try, ast.With)):
                 kill_assigned(st, env)
             elif isinstance(st, ast.Expr):
                 c = st.value
+                if isinstance(c, ast.Call):
+                    env.setdefault("__effects__", [])
+                    eff = subst(c, env)
+                    if isinstance(c.func, ast.Attribute) and isinstance(c.func.value, ast.Name):
+                        eff.func.value = ast.Name(id=c.func.value.id, ctx=ast.Load())     # the receiver of a mutator keeps its name
+                    env["__effects__"] = env["__effects__"] + [eff]
                 if isinstance(c, ast.Call) and isinstance(c.func, ast.Attribute) and isinstance(c.func.value, ast.Name) and c.func.value.id in env:
                     x = c.func.value.id
                     cur = env[x]
@@ -208,6 +281,8 @@ def paths(stmts, env=None, decide=None, limit=MAX_PATHS):
                 return
         out.append(Path(list(conds), "fall", None, dict(env)))
     run(list(stmts), dict(env or {}), [])
+    for p_ in out:
+        p_.effects = p_.env.pop("__effects__", [])
     return out
 
 
